@@ -739,61 +739,68 @@ func modes(s *hx.Seq) {
 	// Sum of three and four modes: every assignment of start times {none, t0, t0+1s, t0+2s} (argument order matters
 	// to an implementation that scans for the earliest and the latest start) to four fixed shapes
 	shapes := [][]sg{{{1, 2}}, {{2, 1}}, {{1, 1}, {2, 1}}, {{2, inf}}}
-	starts4 := []*timestamppb.Timestamp{nil, timestamppb.New(t0), timestamppb.New(t0.Add(time.Second)), timestamppb.New(t0.Add(2 * time.Second))}
-	for n := 3; n <= 4; n++ {
-		total := 1
-		for i := 0; i < n; i++ {
-			total *= len(starts4)
-		}
-		for code := 0; code < total; code++ {
-			if !s.Own() {
-				continue
-			}
-			s.Eval(1)
-			s.Trans(1)
-			var ms, os []*traits.ElectricMode
-			var names []string
-			latest := t0
-			c := code
+	// ... once around t0 and once around the first instant a Timestamp can name (0001-01-01T00:00:00Z, which is also
+	// Go's zero time.Time: a start time like any other)
+	for bi, t0 := range []time.Time{t0, {}} {
+		starts4 := []*timestamppb.Timestamp{nil, timestamppb.New(t0), timestamppb.New(t0.Add(time.Second)), timestamppb.New(t0.Add(2 * time.Second))}
+		for n := 3 - bi; n <= 4-bi; n++ {
+			total := 1
 			for i := 0; i < n; i++ {
-				st := starts4[c%len(starts4)]
-				c /= len(starts4)
-				m := &traits.ElectricMode{Segments: mk(shapes[i]), StartTime: st}
-				ms = append(ms, m)
-				os = append(os, proto.Clone(m).(*traits.ElectricMode))
-				if st == nil {
-					names = append(names, str(m.Segments)+"@nil")
-				} else {
-					names = append(names, fmt.Sprintf("%s@%v", str(m.Segments), st.AsTime().Sub(t0)))
-					if st.AsTime().After(latest) {
-						latest = st.AsTime()
+				total *= len(starts4)
+			}
+			for code := 0; code < total; code++ {
+				if !s.Own() {
+					continue
+				}
+				s.Eval(1)
+				s.Trans(1)
+				var ms, os []*traits.ElectricMode
+				var names []string
+				latest := t0
+				c := code
+				for i := 0; i < n; i++ {
+					st := starts4[c%len(starts4)]
+					c /= len(starts4)
+					m := &traits.ElectricMode{Segments: mk(shapes[i]), StartTime: st}
+					ms = append(ms, m)
+					os = append(os, proto.Clone(m).(*traits.ElectricMode))
+					if st == nil {
+						names = append(names, str(m.Segments)+"@nil")
+					} else {
+						names = append(names, fmt.Sprintf("%s@%v", str(m.Segments), st.AsTime().Sub(t0)))
+						if st.AsTime().After(latest) {
+							latest = st.AsTime()
+						}
 					}
 				}
-			}
-			name := strings.Join(names, " + ")
-			var sum *traits.ElectricMode
-			if pn := guard(func() { sum = modepb.Sum(ms...) }); pn != nil {
-				s.Fail("panic modepb.Sum "+name, fmt.Sprint(pn), nil)
-				continue
-			}
-			for i := range ms {
-				if !proto.Equal(ms[i], os[i]) {
-					s.Fail("mutated-argument modepb.Sum "+name, "Sum modified an argument", nil)
+				name := strings.Join(names, " + ")
+				if bi == 1 {
+					name += " (offsets from 0001-01-01T00:00:00Z)"
 				}
-			}
-			for _, d2 := range samples(6 * time.Second) {
-				t2 := t0.Add(d2)
-				var want float32
-				for _, o := range os {
-					v, _ := F(o, t2, latest)
-					want += v
+				var sum *traits.ElectricMode
+				if pn := guard(func() { sum = modepb.Sum(ms...) }); pn != nil {
+					s.Fail("panic modepb.Sum "+name, fmt.Sprint(pn), nil)
+					continue
 				}
-				if got, _ := F(sum, t2, latest); got != want {
-					s.Fail("mode-sum "+name, fmt.Sprintf("Sum gives %v; at t0%+v it reads %v, pointwise addition gives %v", sum, d2, got, want), nil)
-					break
+				for i := range ms {
+					if !proto.Equal(ms[i], os[i]) {
+						s.Fail("mutated-argument modepb.Sum "+name, "Sum modified an argument", nil)
+					}
 				}
+				for _, d2 := range samples(6 * time.Second) {
+					t2 := t0.Add(d2)
+					var want float32
+					for _, o := range os {
+						v, _ := F(o, t2, latest)
+						want += v
+					}
+					if got, _ := F(sum, t2, latest); got != want {
+						s.Fail("mode-sum "+name, fmt.Sprintf("Sum gives %v; at t0%+v it reads %v, pointwise addition gives %v", sum, d2, got, want), nil)
+						break
+					}
+				}
+				s.State(fmt.Sprintf("sum %d %s", bi, name))
 			}
-			s.State("sum " + name)
 		}
 	}
 	s.Sample("modes built from every segment list of length <=2 with start time nil / t0 / t0+1s: MagnitudeAt, Cut at every half second, Shift by -3..3 s, pairwise Sum; Sum of 3 and 4 modes under every assignment of 4 start times")
